@@ -120,6 +120,10 @@ def run(pid, tier):
         cov["legs"].update(c2)
         states += st2
         trans += tr2
+        v3, c3, tr3 = conc.run_node(tier)
+        violations += v3
+        cov["legs"].update(c3)
+        traces2 += tr3
     except ImportError:
         traces2 = 0
 
